@@ -27,6 +27,7 @@ import os
 import ssl
 import sys
 import threading
+import time as _time
 import traceback
 import uuid
 from decimal import Decimal
@@ -294,6 +295,21 @@ def http_body(raw: bytes) -> bytes:
     return body
 
 
+# ----------------------------------------------------------------------------- time
+class FastTime:
+    """stands in for the time module inside the two subscription managers: their 1 s polling loops sleep on an
+    event, so they stay asleep during a scenario (which lasts a few ms) and wake at once at shutdown"""
+
+    def __init__(self):
+        self.wake = threading.Event()
+
+    def sleep(self, seconds):
+        self.wake.wait(seconds)
+
+    def __getattr__(self, name):
+        return getattr(_time, name)
+
+
 # ----------------------------------------------------------------------------- one configuration
 def exc_name(ex):
     n = type(ex).__name__
@@ -316,6 +332,11 @@ class Run:
         FakeHttpd.net = self.net
         FakeHttpd.instances = []
         httpserverimpl._ThreadingHTTPServer = FakeHttpd     # only the TCP server; HttpServerThreadBase stays real
+        from sdc11073.consumer import subscription as c_subscription
+        from sdc11073.provider import subscriptionmgr_base
+        self.ftime = FastTime()
+        c_subscription.time = self.ftime
+        subscriptionmgr_base.time = self.ftime
         self.wraps = []
         self.advs = []         # scraped from API results
         self.tr = {'phases': []}
@@ -376,8 +397,10 @@ class Run:
         cc.soap_client_class = ConsClient
         cc.action_dispatcher_class = RequestDispatcher
         x_addr = self.provider.get_xaddrs()[0]
-        if c['x_flip']:
+        if c['x'] == 'flip':
             x_addr = ('http' + x_addr[5:]) if x_addr.startswith('https') else ('https' + x_addr[4:])
+        elif c['x'] == 'bad':
+            x_addr = 'ftp' + x_addr[x_addr.index(':'):]
         self.tr['x_addr_scheme'] = x_addr.split(':')[0]
         mode = c['c_mode']
         self.c_cont = mk_container('C', self.wraps) if mode in ('optional', 'enforced') else None
@@ -438,6 +461,7 @@ class Run:
                 except Exception as ex:  # noqa: BLE001
                     self.phase(op[0], exc_name(ex))
         # shutdown
+        self.ftime.wake.set()
         try:
             if c['shutdown'] == 'provider_first':
                 self.provider.stop_all(send_subscription_end=True)
@@ -464,9 +488,18 @@ class Run:
             cons.client('Get').get_mdib()
             return 'ok'
         if kind == 'operate':
+            n_att = len(self.net.attempts)
             fut = cons.client('Set').set_string(self.op_handle, '169.254.0.%d' % (op[1] % 250))
-            res = fut.result(timeout=5)
-            return 'ok:' + str(res.InvocationInfo.InvocationState.value)
+            reachable = (self.p_cont is not None) == self.tr['c_listen_tls']
+            if reachable:
+                res = fut.result(timeout=5)
+                return 'ok:' + str(res.InvocationInfo.InvocationState.value)
+            # the report cannot be delivered: wait until the SCO worker has tried (or given up), never for the result
+            t_end = _time.monotonic() + 0.5
+            while _time.monotonic() < t_end and len(self.net.attempts) == n_att:
+                _time.sleep(0.005)
+            return 'requested'
+
         if kind == 'notify':
             before = len(self.net.log)
             with self.provider.mdib.metric_state_transaction() as tr:
@@ -484,15 +517,12 @@ class Run:
             return 'ok' if sub.renew(60) > 0 else 'fail'
         if kind == 'getstatus':
             return 'ok' if sub.get_status() > 0 else 'fail'
-        if kind == 'unsubscribe':
+        if kind == 'cycle':          # Unsubscribe followed by a new Subscribe of the same filter
             was = sub.is_subscribed
-            sub.unsubscribe()
-            return 'ok' if was else 'noop'
-        if kind == 'resubscribe':
-            if sub.is_subscribed:
-                return 'noop'
+            if was:
+                sub.unsubscribe()
             sub.subscribe(expires=60)
-            return 'ok' if sub.is_subscribed else 'fail'
+            return ('ok' if was else 'sub') if sub.is_subscribed else 'fail'
         raise ValueError(kind)
 
     def finish(self):
